@@ -928,8 +928,15 @@ def Ctx.runDeferred (c : Ctx) : Ctx :=
   { c with log := c.log ++ c.dfr.map Event.deferRan, dfr := [] }
 
 /-- `write`: the outermost template; deferred functions run once, after all output. -/
-def write (reg : Registry) (fuel : Nat) (nodes : List Node) (s : St) : Res :=
+def writeBody (reg : Registry) (fuel : Nat) (nodes : List Node) (s : St) : Res :=
   (writeTree reg fuel nodes s).andThen fun st => ok { st with c := st.c.runDeferred }
+
+/-- The state an outermost rendering starts from: bound tags are lexical, a tag left open by an earlier rendering
+    on the same context does not leak into this one (repair). -/
+def St.topStart (s : St) : St := { s with c := { s.c with bnd := [] } }
+
+def write (reg : Registry) (fuel : Nat) (nodes : List Node) (s : St) : Res :=
+  writeBody reg fuel nodes s.topStart
 
 /-- `Write(w, key, ctx)`: lookup first; not found → error before any write. -/
 def writeKey (reg : Registry) (fuel : Nat) (key : Bytes) (s : St) : Res :=
